@@ -40,6 +40,12 @@ pub fn ods_share(rng: &mut Rng, ns: &Namespace) -> Vec<u8> {
 /// and every column): reserved namespaces first, then 1..many user namespaces in runs of random length,
 /// then (sometimes) tail padding.  Returns the shares and the distinct namespaces used.
 pub fn gen_ods(rng: &mut Rng, k: usize) -> (Vec<Vec<u8>>, Vec<Namespace>) {
+    gen_ods_users(rng, k, None)
+}
+
+/// S10 size-threshold stress: as [`gen_ods`], with the number of user namespaces given (`Some(n)`: up to one
+/// namespace per share, i.e. `k` distinct namespaces in one row; `None`: the default 1..9 for the whole square)
+pub fn gen_ods_users(rng: &mut Rng, k: usize, users: Option<usize>) -> (Vec<Vec<u8>>, Vec<Namespace>) {
     let total = k * k;
     let mut nss: Vec<Namespace> = vec![];
     if rng.chance(2, 3) {
@@ -51,7 +57,10 @@ pub fn gen_ods(rng: &mut Rng, k: usize) -> (Vec<Vec<u8>>, Vec<Namespace>) {
     if rng.chance(1, 3) {
         nss.push(Namespace::PRIMARY_RESERVED_PADDING);
     }
-    let users = rng.usize(1, (total / 2).clamp(1, 9));
+    let users = match users {
+        Some(n) => n.max(1),
+        None => rng.usize(1, (total / 2).clamp(1, 9)),
+    };
     let mut us: Vec<Namespace> = (0..users).map(|_| user_ns(rng)).collect();
     us.sort();
     us.dedup();
@@ -83,7 +92,12 @@ pub fn app() -> AppVersion {
 
 /// extended square through the real `ExtendedDataSquare::from_ods` (real leopard codec)
 pub fn gen_eds(rng: &mut Rng, eds_width: usize) -> (ExtendedDataSquare, Vec<Namespace>) {
-    let (ods, nss) = gen_ods(rng, eds_width / 2);
+    gen_eds_users(rng, eds_width, None)
+}
+
+/// S10: as [`gen_eds`] with the number of user namespaces given (see [`gen_ods_users`])
+pub fn gen_eds_users(rng: &mut Rng, eds_width: usize, users: Option<usize>) -> (ExtendedDataSquare, Vec<Namespace>) {
+    let (ods, nss) = gen_ods_users(rng, eds_width / 2, users);
     (ExtendedDataSquare::from_ods(ods, app()).expect("generated ODS must extend"), nss)
 }
 
